@@ -24,6 +24,12 @@ TIMES = 'history/times.py'; HFILES = 'history/files.py'; TNETS = 'server/tnetstr
 POLL = 'server/enip/poll.py'; DEFAULTS = 'server/enip/defaults.py'; NETWORK = 'server/network.py'
 
 VARIANTS = [
+    V( 'routefirst-own-services-first', LOGIX, "target = self.route( data, fail=Message_Router.ROUTE_FALSE )\n if target:\n if log.isEnabledFor( logging.DETAIL ):\n log.detail( \"%s Routing to %s: %s\", self, target, enip_format( data ))\n return target.request( data, addr=addr )\n", "if 'read_tag' not in data and 'read_frag' not in data:\n            target		= self.route( data, fail=Message_Router.ROUTE_FALSE )\n            if target:\n                return target.request( data, addr=addr )\n", fires=[ 'P-ROUTEFIRST' ] ),
+    V( 'routefirst-without-logging', LOGIX, "if target:\n if log.isEnabledFor( logging.DETAIL ):\n log.detail( \"%s Routing to %s: %s\", self, target, enip_format( data ))\n return target.request( data, addr=addr )", "if target:\n            return target.request( data, addr=addr )", silent=[ 'P-ROUTEFIRST' ] ),
+    V( 'optype-dot-overrules-cast', CLIENT, "if '.' in val:\n opr['tag_type'],size,cast = CIP_TYPES['REAL']\n else:\n opr['tag_type'],size,cast = CIP_TYPES[int_type.strip().upper()]\n # Allow an optional (TYPE)value,value,...\n if val.strip().startswith( '(' ) and ')' in val:\n typ,val = val.split( ')', 1 ) # Get leading: ['(TYPE', '), ...]\n _,typ = typ.split( '(', 1 )\n opr['tag_type'],size,cast = CIP_TYPES[typ.strip().upper()]",
+       "typ			= int_type\n            if val.strip().startswith( '(' ) and ')' in val:\n                typ,val		= val.split( ')', 1 )\n                _,typ		= typ.split( '(', 1 )\n            if '.' in val:\n                typ		= 'REAL'\n            opr['tag_type'],size,cast = CIP_TYPES[typ.strip().upper()]", fires=[ 'T-OPTYPE' ] ),
+    V( 'optype-single-lookup-cast-last', CLIENT, "if '.' in val:\n opr['tag_type'],size,cast = CIP_TYPES['REAL']\n else:\n opr['tag_type'],size,cast = CIP_TYPES[int_type.strip().upper()]\n # Allow an optional (TYPE)value,value,...\n if val.strip().startswith( '(' ) and ')' in val:\n typ,val = val.split( ')', 1 ) # Get leading: ['(TYPE', '), ...]\n _,typ = typ.split( '(', 1 )\n opr['tag_type'],size,cast = CIP_TYPES[typ.strip().upper()]",
+       "typ			= 'REAL' if '.' in val else int_type\n            if val.strip().startswith( '(' ) and ')' in val:\n                typ,val		= val.split( ')', 1 )\n                _,typ		= typ.split( '(', 1 )\n            opr['tag_type'],size,cast = CIP_TYPES[typ.strip().upper()]", silent=[ 'T-OPTYPE' ] ),
     V( 'lookup-raw-symbol-first', AUTO, "enc = self.encode( inp )\n try:\n return super( state, self ).__getitem__( enc )", "if self.encoder is None:\n            try:\n                return super( state, self ).__getitem__( inp )\n            except KeyError:\n                pass\n        enc			= self.encode( inp )\n        try:\n            return super( state, self ).__getitem__( enc )", fires=[ 'X-LOOKUP' ] ),
     V( 'route-request-through-config-helper', UCMM, "or route_path == self.route_path # Or they match", "or [ device.port_link( dict( seg )) for seg in route_path ] == self.route_path", fires=[ 'B-ROUTE' ] ),
     V( 'route-request-copied', UCMM, "or route_path == self.route_path # Or they match", "or list( route_path ) == self.route_path", silent=[ 'B-ROUTE' ] ),
